@@ -6,6 +6,7 @@ import (
 	"bufio"
 	"fmt"
 	"image"
+	"io"
 	"math"
 	"os"
 	"os/exec"
@@ -17,6 +18,7 @@ import (
 
 	"github.com/evanoberholster/imagemeta/exif2"
 	"github.com/evanoberholster/imagemeta/imagehash"
+	"github.com/evanoberholster/imagemeta/isobmff"
 	"vh/internal/drv"
 )
 
@@ -337,6 +339,9 @@ func runC08(c *Ctx) error {
 		}
 	}
 	sweep(cases, 10*time.Second)
+	if err := bufioOpsCorrespondence(c); err != nil {
+		return err
+	}
 	if err := bufioCorrespondence(c); err != nil {
 		return err
 	}
@@ -615,7 +620,7 @@ func bufioCorrespondence(c *Ctx) error {
 		full := "-"
 		if len(sched) > 0 {
 			var rep []string
-			for j := 0; j < 40; j++ {
+			for len(rep) < 220 { // one source read delivers at least one byte: more entries than the data has bytes
 				rep = append(rep, ss...)
 			}
 			full = strings.Join(rep, ",")
@@ -654,6 +659,138 @@ func bufioCorrespondence(c *Ctx) error {
 		}
 	}
 	return nil
+}
+
+
+// bufioOpsCorrespondence ties the Lean model of Peek / Discard / Read / io.ReadFull and of box.Read (isobmff, through the
+// verif hook VerifBoxChain) over a scheduled source to the real bufio.Reader, io.ReadFull and the real box.Read: mixed
+// operation sequences, one token per operation (bytes, success, remaining lengths of the box chain).
+func bufioOpsCorrespondence(c *Ctx) error {
+	var reqs, impl []string
+	lims := func(v []int) string {
+		var p []string
+		for _, x := range v {
+			p = append(p, fmt.Sprint(x))
+		}
+		return strings.Join(p, ",")
+	}
+	hexOr := func(b []byte) string {
+		if len(b) == 0 {
+			return "-"
+		}
+		return hexs(b)
+	}
+	for i := 0; i < c.N(800, 20000); i++ {
+		data := make([]byte, c.Rng.Intn(150))
+		c.Rng.Read(data)
+		var sched []int
+		var ss []string
+		for j := 0; j < c.Rng.Intn(6); j++ {
+			k := 1 + c.Rng.Intn(9)
+			if c.Rng.Intn(6) == 0 {
+				k = 1 + c.Rng.Intn(60)
+			}
+			sched = append(sched, k)
+			ss = append(ss, fmt.Sprint(k))
+		}
+		full := "-"
+		if len(sched) > 0 {
+			var rep []string
+			for len(rep) < 220 { // one source read delivers at least one byte: more entries than the data has bytes
+				rep = append(rep, ss...)
+			}
+			full = strings.Join(rep, ",")
+		}
+		size := 16 + c.Rng.Intn(40)
+		nb := 1 + c.Rng.Intn(3)
+		remains := make([]int, nb)
+		for j := range remains {
+			remains[j] = c.Rng.Intn(len(data) + 20)
+			if c.Rng.Intn(8) == 0 {
+				remains[j] = 0
+			}
+		}
+		br := bufio.NewReaderSize(&chunkReader{data: append([]byte{}, data...), sched: sched, failAt: -1}, size)
+		box, remainOf := isobmff.VerifBoxChain(br, remains)
+		var ops, out []string
+		for j := 0; j < 1+c.Rng.Intn(7); j++ {
+			switch c.Rng.Intn(6) {
+			case 0:
+				n := c.Rng.Intn(size + 1)
+				ops = append(ops, fmt.Sprintf("P%d", n))
+				b, err := br.Peek(n)
+				out = append(out, fmt.Sprintf("%s:%d", hexOr(b), b2i(err == nil)))
+				c.Stat("op.peek")
+			case 1:
+				n := c.Rng.Intn(70)
+				ops = append(ops, fmt.Sprintf("D%d", n))
+				d, _ := br.Discard(n)
+				out = append(out, fmt.Sprint(d))
+				c.Stat("op.discard")
+			case 2:
+				n := 1 + c.Rng.Intn(70)
+				ops = append(ops, fmt.Sprintf("R%d", n))
+				p := make([]byte, n)
+				k, err := br.Read(p)
+				if k == 0 && err == io.EOF {
+					out = append(out, "EOF")
+				} else {
+					out = append(out, hexOr(p[:k]))
+				}
+				if k < n && k > 0 {
+					c.Stat("op.read-short")
+				} else {
+					c.Stat("op.read")
+				}
+			case 3:
+				n := c.Rng.Intn(70)
+				ops = append(ops, fmt.Sprintf("F%d", n))
+				p := make([]byte, n)
+				k, err := io.ReadFull(br, p)
+				out = append(out, fmt.Sprintf("%s:%d", hexOr(p[:k]), b2i(err == nil)))
+				c.Stat("op.readfull")
+			case 4:
+				n := 1 + c.Rng.Intn(70)
+				ops = append(ops, fmt.Sprintf("B%d", n))
+				p := make([]byte, n)
+				k, err := box.Read(p)
+				if k == 0 && err == io.EOF {
+					out = append(out, "EOF:"+lims(remainOf()))
+				} else {
+					out = append(out, hexOr(p[:k])+":"+lims(remainOf()))
+				}
+				c.Stat("op.box-read")
+			default:
+				n := c.Rng.Intn(70)
+				ops = append(ops, fmt.Sprintf("G%d", n))
+				p := make([]byte, n)
+				k, err := io.ReadFull(box, p)
+				out = append(out, fmt.Sprintf("%s:%d:%s", hexOr(p[:k]), b2i(err == nil), lims(remainOf())))
+				c.Stat("op.box-readfull")
+			}
+		}
+		reqs = append(reqs, fmt.Sprintf("bufio.ops %s %s %d %s %s", hexOr(data), full, size, lims(remains), strings.Join(ops, " ")))
+		impl = append(impl, strings.Join(out, " "))
+	}
+	model, err := drv.Batch(reqs)
+	if err != nil {
+		return err
+	}
+	for i := range reqs {
+		c.Count(reqs[i], true)
+		c.Stat("bufio.ops-model-vs-real")
+		if model[i] != impl[i] {
+			c.Disagree(Case{Entry: "bufio.Reader/box.Read", Input: reqs[i], Expected: model[i], Actual: impl[i]})
+		}
+	}
+	return nil
+}
+
+func b2i(b bool) int {
+	if b {
+		return 1
+	}
+	return 0
 }
 
 func init() { props["C05"] = runC05 }
